@@ -8,7 +8,7 @@
         old(self).items@.len() < usize::MAX,
     ensures
         final(self).items@ == old(self).items@.push(__p1),
-        // C11: counts match the listed actions
+        // C11 C12: counts match the listed actions
         final(self).counted(),
 //@ entry
     proof {
@@ -28,7 +28,7 @@
     ensures
         final(self).items@ == old(self).items@ + iter.remaining(),
         iter.will_return_none(),
-        // C11: counts match the listed actions
+        // C11 C12: counts match the listed actions
         final(self).counted(),
 //@ beforeloop 1
         let ghost rem0 = iter.remaining();
@@ -123,14 +123,12 @@
 |x: &'a P| -> (r: (P, Action)) ensures r == (*x, Action::Announce)
 //@ closurecall 1 via iter_map
                         proof {
-                            assert(FnW::<&'a P, (P, Action)>::w(&vstd::std_specs::iter::map_fun(__r1)));
                             assert(__r1.will_return_none() ==> __r1.remaining() =~= ann(deref_seq(new_iter.remaining())));
                         }
 //@ closure 2
 |x: &'a P| -> (r: (P, Action)) ensures r == (*x, Action::Withdraw)
 //@ closurecall 2 via iter_map
                         proof {
-                            assert(FnW::<&'a P, (P, Action)>::w(&vstd::std_specs::iter::map_fun(__r2)));
                             assert(__r2.will_return_none() ==> __r2.remaining() =~= wdr(deref_seq(old_iter.remaining())));
                         }
 //@ fn StandardDelta::merge
@@ -211,7 +209,7 @@
         old(self).items@.len() < usize::MAX,
     ensures
         final(self).items@ == old(self).items@.push(__p1),
-        // C11: counts match the listed actions
+        // C11 C12: counts match the listed actions
         final(self).counted(),
 //@ entry
     proof {
@@ -231,7 +229,7 @@
     ensures
         final(self).items@ == old(self).items@ + iter.remaining(),
         iter.will_return_none(),
-        // C11: counts match the listed actions
+        // C11 C12: counts match the listed actions
         final(self).counted(),
 //@ beforeloop 1
         let ghost rem0 = iter.remaining();
@@ -282,7 +280,6 @@
 //@ closurecall 1 via iter_map
         proof {
             assert(__r1.will_return_none() ==> pwo);
-            assert(FnW::<(&'a Aspa, &'a PayloadInfo), &'a Aspa>::w(&vstd::std_specs::iter::map_fun(__r1)));
             assert(__r1.will_return_none() ==> deref_seq(__r1.remaining()) =~= firsts(PO));
         }
 //@ closure 2
@@ -290,7 +287,6 @@
 //@ closurecall 2 via iter_map
         proof {
             assert(__r2.will_return_none() ==> pwn);
-            assert(FnW::<(&'a Aspa, &'a PayloadInfo), &'a Aspa>::w(&vstd::std_specs::iter::map_fun(__r2)));
             assert(__r2.will_return_none() ==> deref_seq(__r2.remaining()) =~= firsts(PN));
         }
 //@ beforeloop 1
@@ -328,17 +324,11 @@
             + (if opt_new is Some { 1 + new_iter.decrease()->Some_0 } else { 0 }),
 //@ loopentry 1
             proof {
-                // (device, see FnW: lets the solver resolve the Map adapters' iterator specs inside the loop)
-                assert(FnW::<(&'a Aspa, &'a PayloadInfo), &'a Aspa>::w(&vstd::std_specs::iter::map_fun(old_iter)));
-                assert(FnW::<(&'a Aspa, &'a PayloadInfo), &'a Aspa>::w(&vstd::std_specs::iter::map_fun(new_iter)));
             }
             let ghost items0 = items.items@;
             let ghost ro0 = rest(opt_old, old_iter.remaining());
             let ghost rn0 = rest(opt_new, new_iter.remaining());
             proof {
-                // (device, see FnW: lets the solver resolve the Map adapters' iterator specs inside the loop)
-                assert(FnW::<(&'a Aspa, &'a PayloadInfo), &'a Aspa>::w(&vstd::std_specs::iter::map_fun(old_iter)));
-                assert(FnW::<(&'a Aspa, &'a PayloadInfo), &'a Aspa>::w(&vstd::std_specs::iter::map_fun(new_iter)));
                 lemma_adiff_unfold(ro0, rn0);
                 lemma_rest(opt_old, old_iter.remaining());
                 lemma_rest(opt_new, new_iter.remaining());
@@ -359,7 +349,6 @@
 |x: &'a Aspa| -> (r: (Aspa, AspaAction)) ensures r == (*x, AspaAction::Announce)
 //@ closurecall 3 via iter_map
                     proof {
-                        assert(FnW::<&'a Aspa, (Aspa, AspaAction)>::w(&vstd::std_specs::iter::map_fun(__r3)));
                         assert(__r3.will_return_none() ==> __r3.remaining() =~= aann(deref_seq(new_iter.remaining())));
                     }
 //@ fn AspaDelta::merge
@@ -554,10 +543,6 @@ spec fn total_order<P: Ord>() -> bool {
 // `Clone for P` returns an equal value
 spec fn clone_exact<P: Clone>() -> bool { forall|a: &P, b: P| #[trigger] call_ensures(P::clone, (a,), b) ==> *a == b }
 
-// device: makes the solver see that a closure literal implements FnMut (needed for the
-// Map adapter's iterator laws in a generic function); proves nothing by itself
-trait FnW<A, B> { spec fn w(&self) -> bool; }
-impl<A, B, F: FnMut(A) -> B> FnW<A, B> for F { spec fn w(&self) -> bool { true } }
 
 
 // `i.map(f)` with everything vstd knows about the result stated as a postcondition (vstd states
